@@ -299,7 +299,7 @@ def _pip3(V, p):
     return pip_exact([[v[k] for k in keep] for v in cv], [cp[k] for k in keep])
 
 
-def _post_poly(ctx, call, monitor, faces_of):
+def _post_poly(ctx, call, monitor, faces_of, allow_dup=False):
     from geometer.point import LineTensor
     from geometer.shapes import SegmentTensor
 
@@ -348,6 +348,8 @@ def _post_poly(ctx, call, monitor, faces_of):
     if got is None:
         return
     ok1, ok2, dup = _approx_in(got, ref)
+    if allow_dup:
+        dup = False  # a collection of polygons answers polygon by polygon: a point on a shared edge is reported by each of them
     if infinite:
         # a line inside an edge line / face plane: "no spurious point": every returned point must lie on both operands (exact membership),
         # no point may be returned twice and the isolated hits of the faces that are crossed properly must be present
@@ -383,11 +385,14 @@ def _on_face(poly_e, p, dim):
 
 def post_polygon_intersect(ctx, call):
     def faces_of(self):
+        if self.rank == 3 and self.shape[-1] == 4:
+            # a collection of polygons of space with one collection axis (the faces of a solid, or a part of them obtained by indexing)
+            return [np.asarray(f) for f in self.array]
         if self.rank != 2:
             return None
         return [np.asarray(self.array)]
 
-    _post_poly(ctx, call, "polygon.intersect", faces_of)
+    _post_poly(ctx, call, "polygon.intersect", faces_of, allow_dup=getattr(call.args[0], "rank", 2) == 3)
 
 
 def post_polyhedron_intersect(ctx, call):
@@ -609,6 +614,22 @@ def g_solids(ctx, rng, i):
     _try(solid.intersect, g.Segment(g.Point(mid), g.Point(mid + np.array([20, 0, 0, 0]))))
     far = np.append(o + s + 5, 1)
     _try(solid.intersect, g.Line(g.Point(far), g.Point(far + np.array([1, 0, 0, 0]))))
+    # the faces as a collection of their own, and parts of it obtained by slicing / fancy / mask indexing, against lines and segments that lie in
+    # the plane of some of them, pierce them or miss them
+    fc = _try(lambda: solid.faces)
+    if fc is not None and i % 2 == 0:
+        nf = fc.shape[0]
+        msk = rng.random(nf) < 0.6
+        msk[int(rng.integers(0, nf))] = True
+        forms = [fc, _try(lambda: fc[::-1]), _try(lambda: fc[[0, nf - 1, 1]]), _try(lambda: fc[msk]), _try(lambda: fc[1:])]
+        a_ = np.append(2 * o + [s[0], 0, s[2]], 2) if len(corners) == 8 else np.append(corners[0] + corners[1], 2)
+        others = [g.Line(g.Point(a_ - np.array([8, 0, 0, 0])), g.Point(a_ + np.array([8, 0, 0, 0]))), g.Segment(g.Point(a_ - np.array([40, 0, 0, 0])), g.Point(a_ + np.array([40, 0, 0, 0]))),
+                  g.Line(g.Point(mid), g.Point(mid + np.array([2, 0, 0, 0]))), g.Line(g.Point(c0), g.Point(c1))]
+        for f_ in forms:
+            if f_ is None:
+                continue
+            for ot in others:
+                _try(f_.intersect, ot)
     # 3D polygon pierced / missed / coplanar line
     face = g.Polygon(*[g.Point(np.append(o + v, 1)) for v in ([0, 0, 0], [s[0], 0, 0], [s[0], s[1], 0], [0, s[1], 0])])
     c = np.append(2 * o + [s[0], s[1], 0], 2)
